@@ -274,8 +274,8 @@ PROPS['C19'] = dict(
          'errors absorbed; catchReply with a failing open; the whole client with the n-th open/write failing (n = 1..16). (iii) cancel at 200 / 5000 random virtual '
          'instants of a running server (idle, inside the reply delay, inside probes, after the reply) and of dclient.Run against a scripted responder '
          '(normal, silent, NAK / silence on renewal, address conflict and SetIface failure -> panicReset, unanswered ARP, 2 h lease): virtual time cancel -> return '
-         'must be 0, sockets balanced, goroutines back at baseline. 40 / 600 client lives of 1-400 s counted by the model (tag 1902). One limiter scenario (F11) '
-         'whose delay is recorded, not judged. Non-trivial = at least one socket beyond the first; distinct by full case line.',
+         'must be 0, sockets balanced, goroutines back at baseline. 40 / 600 client lives of 1-400 s counted by the model (tag 1902). One limiter scenario (F11, repaired): cancel '
+         'during the 20 s pause of the tripped limiter must return at once. Non-trivial = at least one socket beyond the first; distinct by full case line.',
     trusted=['lib/arpping/arpping.go, lib/server/{run,utils,netio}.go (socket use), lib/client/dclient/{netio,dclient,sysstates,dhcpstates}.go are modelled by hand as '
              'processes in coq/model/Res.v; tools/gofacts checks that the Close calls / closer goroutines / deferred cancels are where the model has them',
              'lib/rsocks/vnet_verif.go counts opens and closes (a second Close of the same socket returns an error and is not counted: double closes are excluded by the theorem, not observed)',
